@@ -257,10 +257,13 @@ dualvec_shape!(C<1>, Const<1>, Const::<1>, 1, "static");
 dualvec_shape!(C<2>, Const<2>, Const::<2>, 2, "static");
 dualvec_shape!(C<3>, Const<3>, Const::<3>, 3, "static");
 dualvec_shape!(C<4>, Const<4>, Const::<4>, 4, "static");
+dualvec_shape!(C<5>, Const<5>, Const::<5>, 5, "static");
+dualvec_shape!(C<6>, Const<6>, Const::<6>, 6, "static");
 dualvec_shape!(Dy<1>, Dyn, Dyn(1), 1, "dyn");
 dualvec_shape!(Dy<2>, Dyn, Dyn(2), 2, "dyn");
 dualvec_shape!(Dy<3>, Dyn, Dyn(3), 3, "dyn");
 dualvec_shape!(Dy<4>, Dyn, Dyn(4), 4, "dyn");
+dualvec_shape!(Dy<6>, Dyn, Dyn(6), 6, "dyn");
 
 macro_rules! hypervec_shape {
     ($mm:ty, $nm:ty, $M:ty, $N:ty, $m:expr, $n:expr, $mv:expr, $nv:expr, $tag:expr) => {
@@ -313,6 +316,9 @@ hypervec_shape!(C<1>, C<2>, Const<1>, Const<2>, Const::<1>, Const::<2>, 1, 2, "s
 hypervec_shape!(C<2>, C<2>, Const<2>, Const<2>, Const::<2>, Const::<2>, 2, 2, "static");
 hypervec_shape!(C<2>, C<3>, Const<2>, Const<3>, Const::<2>, Const::<3>, 2, 3, "static");
 hypervec_shape!(C<3>, C<2>, Const<3>, Const<2>, Const::<3>, Const::<2>, 3, 2, "static");
+hypervec_shape!(C<3>, C<3>, Const<3>, Const<3>, Const::<3>, Const::<3>, 3, 3, "static");
+hypervec_shape!(C<4>, C<2>, Const<4>, Const<2>, Const::<4>, Const::<2>, 4, 2, "static");
+hypervec_shape!(Dy<3>, Dy<3>, Dyn, Dyn, Dyn(3), Dyn(3), 3, 3, "dyn");
 hypervec_shape!(Dy<1>, Dy<1>, Dyn, Dyn, Dyn(1), Dyn(1), 1, 1, "dyn");
 hypervec_shape!(Dy<2>, Dy<1>, Dyn, Dyn, Dyn(2), Dyn(1), 2, 1, "dyn");
 hypervec_shape!(Dy<1>, Dy<2>, Dyn, Dyn, Dyn(1), Dyn(2), 1, 2, "dyn");
